@@ -124,6 +124,13 @@ def mentions_attr(t: Any, name: str) -> bool:
     return contains(t, lambda x: isinstance(x, tuple) and len(x) > 1 and x[0] == "attr" and x[1] == name)
 
 
+def _index(t: Term, i: Any) -> Term:
+    """the i-th component of a tuple display is that component"""
+    if isinstance(t, tuple) and t and t[0] == "tuple" and isinstance(i, int) and not isinstance(i, bool) and -(len(t) - 1) <= i < len(t) - 1:
+        return t[1:][i]
+    return ("index", t, i)
+
+
 class StoreModel:
     """Effect summaries for one store class."""
 
@@ -308,7 +315,7 @@ class StoreModel:
                 self.attr_def_exprs[tg.attr] = val
         elif isinstance(tg, (ast.Tuple, ast.List)):
             for i, e in enumerate(tg.elts):
-                self._bind(e, ("index", t, i), val, f, env)
+                self._bind(e, _index(t, i), val, f, env)
 
     def _seg_loop(self, st: ast.For, it: Term, f: Func, env: Dict[str, Term], conds, out: List[Effect], handlers: List[str], depth: int) -> None:
         """`for s in <segments of the path>:` with `xs.append(s)` into an empty local list: xs holds the segments again
@@ -435,9 +442,9 @@ class StoreModel:
         if isinstance(e, ast.Subscript):
             base = self._expr(e.value, f, env, conds, out, handlers, depth)
             if isinstance(e.slice, ast.Constant):
-                return ("index", base, e.slice.value)
+                return _index(base, e.slice.value)
             if isinstance(e.slice, ast.UnaryOp) and isinstance(e.slice.op, ast.USub) and isinstance(e.slice.operand, ast.Constant):
-                return ("index", base, -e.slice.operand.value)
+                return _index(base, -e.slice.operand.value)
             if isinstance(e.slice, ast.Slice):
                 if isinstance(base, tuple) and base[0] == "segs":
                     return ("segs", "lossy", f"slice {unparse(e.slice)} drops segments")
@@ -518,6 +525,10 @@ class StoreModel:
         if d is not None:
             if d in WRAPPERS and args:
                 return args[0]
+            if d in ("list", "tuple") and len(args) == 1 and isinstance(args[0], tuple) and args[0] and args[0][0] == "segs":
+                return args[0]  # the same segments, in the same order
+            if d == "filter" and len(args) == 2 and isinstance(args[1], tuple) and args[1] and args[1][0] == "segs" and args[0] in (("const", None), ("name", "bool"), ("name", "len")):
+                return args[1]  # drops the empty segments only
             if d in ("os.path.join",):
                 jt = flatten(("join",) + tuple(args))
                 if hasattr(self, "join_sites"):
